@@ -482,6 +482,421 @@ fn check_circle_boxes(r: &mut Report) {
     } } } }
 }
 
+// ================================================================ WAVE 5: parameter-space audit (notes/w5_audit_C11.md)
+// Scale-aware tolerances: a relative 1e-9 of the RADIUS plus the rounding of the absolute coordinates (1e-14 of the
+// centre coordinates), so that a tiny circle (r = 2^-20) or a circle far from the origin (1e6) is checked as sharply as
+// the unit circle at the origin (the round 1-4 tolerance T * (1 + r + |cx| + |cy|) is 1000 r for r = 1e-6).
+fn tol5(c: &Circle2) -> f64 { 1e-9 * c.r() + 1e-14 * (c.center.x.abs() + c.center.y.abs()) }
+fn on_circle5(q: &Point2, c: &Circle2) -> bool { fin(q) && (d2(q, &c.center) - c.r()).abs() <= tol5(c) }
+/// x moved by k units in the last place (x > 0)
+fn ulps(x: f64, k: i64) -> f64 { f64::from_bits((x.to_bits() as i64 + k) as u64) }
+
+/// (1) MAGNITUDES: the pair grid at scales 2^-20 .. 2^20 and centres 1e6 away (all coordinates stay exactly
+/// representable: tangency is still exact); centre distances 2^-10 .. 2^-30 between (nearly) equal circles (crossing);
+/// (3) TIES: radii one .. four units in the last place either side of external / internal tangency, decimal (inexact)
+/// tangencies, a circle of radius 0 on / off the other perimeter; intersection_interval: its two ends are the
+/// intersection points.
+fn check_w5_circle_pairs(r: &mut Report) {
+    let offsets = [(3.0, 0.0), (0.0, -4.0), (3.0, 4.0), (-5.0, -12.0), (-6.0, 8.0), (1.0, 1.0), (-0.5, 0.0), (8.0, 0.0), (0.0, 2.0)];
+    let radii = [0.0, 0.5, 1.0, 2.0, 3.0, 5.0, 8.0, 9.0];
+    let scales = [1.0 / 1048576.0, 1.0 / 1024.0, 1.0, 1024.0, 1048576.0];
+    for (bx, by) in [(0.0, 0.0), (1.0e6, -2.0e6), (-3.0, 7.0)] { for s in scales {
+        // a far base centre only with scales >= 1 (the offsets must survive the addition exactly)
+        if bx != 0.0 && s < 1.0 { continue; }
+        for off in offsets { for r0 in radii { for r1 in radii {
+            let a = Circle2::new(bx, by, r0 * s);
+            let b = Circle2::new(bx + off.0 * s, by + off.1 * s, r1 * s);
+            let d = ((off.0 * off.0 + off.1 * off.1) as f64).sqrt() * s;
+            let (rs, rd) = ((r0 + r1) * s, (r0 - r1).abs() * s);
+            let expected = if d == rs || d == rd { 1 } else if (d - rs).abs() < 1e-6 * s || (d - rd).abs() < 1e-6 * s { continue } else if d > rs || d < rd { 0 } else { 2 };
+            r.case();
+            let got = a.intersections_with(&b);
+            let desc = || format!("circle {:?} x circle {:?} (centre distance {:?}, r0+r1 {:?}, |r0-r1| {:?}) -> {:?}", cs(&a), cs(&b), d, rs, rd, ps(&got));
+            r.check(got.iter().all(fin), "circle-circle intersection: no non-finite coordinate", desc);
+            r.check(got.len() == expected, "circle-circle intersection: count matches the configuration (0 separate / nested / concentric, 1 tangent, 2 crossing)", || format!("{} expected {}", desc(), expected));
+            r.check(got.iter().all(|q| on_circle5(q, &a) && on_circle5(q, &b)), "circle-circle intersection: every returned point lies on both circles", desc);
+            if got.len() == 2 { r.check(d2(&got[0], &got[1]) > 1e-7 * s, "circle-circle intersection: two crossing points are distinct", desc); }
+            // symmetric call: the same points as a set
+            let rev = b.intersections_with(&a);
+            r.check(rev.len() == got.len() && rev.iter().all(|q| got.iter().any(|g| d2(q, g) <= tol5(&a) + tol5(&b))), "circle-circle intersection: both call orders return the same points", || format!("{} reversed -> {:?}", desc(), ps(&rev)));
+            // the interval of this circle cut out by the other: its two ends are the intersection points
+            let iv = a.intersection_interval(b);
+            r.check(iv.is_some() == (expected > 0), "intersection_interval is produced exactly when the circles meet", desc);
+            if let (Some(iv), true) = (iv, got.len() == expected && expected > 0 && r0 > 0.0) {
+                let ends = [a.point_at_angle(iv.start()), a.point_at_angle(iv.start() + iv.angle())];
+                let t = 10.0 * (tol5(&a) + tol5(&b)) + 1e-12 * r0 * s;
+                let ok = ends.iter().all(|e| got.iter().any(|g| d2(e, g) <= t)) && got.iter().all(|g| ends.iter().any(|e| d2(e, g) <= t));
+                r.check(ok, "intersection_interval: the two ends of the interval are the intersection points (they lie on both circles)", || format!("{} interval start {:?} angle {:?} -> ends {:?}", desc(), iv.start(), iv.angle(), ps(&ends)));
+            }
+        } } }
+    } }
+    // ---- small centre distances: equal and nearly equal radii cross in two points however close the centres are
+    // (down to the documented concentric threshold 1e-10)
+    for (cx, cy) in [(0.0, 0.0), (4.0, -3.0)] { for rad in [1.0, 0.125, 64.0] { for k in [10, 20, 30] { for (ux, uy) in [(1.0, 0.0), (0.0, -1.0), (0.6, 0.8), (-0.8, 0.6)] { for grow in [0.0, 0.5, -0.25] {
+        let d = (0.5f64).powi(k) * rad;
+        let a = Circle2::new(cx, cy, rad);
+        let b = Circle2::new(cx + ux * d, cy + uy * d, rad + grow * d);
+        r.case();
+        let got = a.intersections_with(&b);
+        let desc = || format!("circle {:?} x circle {:?} (centre distance about r * 2^-{}) -> {:?}", cs(&a), cs(&b), k, ps(&got));
+        // [defect] centre distance within 1e-10 of |r0 - r1| while the distance itself is of that size: the code takes its
+        // "touching" branch and returns the foot of the radical line, c + v (r0^2 - r1^2 + d^2) / 2d, which is only ON the
+        // circles when that quotient is +-r0; here it is not (error about 1e-10 r / d)
+        if grow != 0.0 && d < 1e-9 {
+            r.check(!got.is_empty() && got.iter().all(|q| on_circle5(q, &a) && (d2(q, &b.center) - b.r()).abs() <= 2e-10), "[defect: nearly concentric circles whose centre distance is within 1e-10 of |r0 - r1|] circle-circle intersection: every returned point lies on both circles", desc);
+            continue;
+        }
+        r.check(got.len() == 2 && got.iter().all(|q| on_circle5(q, &a) && on_circle5(q, &b)) && d2(&got[0], &got[1]) > rad, "circle-circle intersection: (nearly) equal circles with close but distinct centres cross in two points on both circles", desc);
+    } } } } }
+    // ---- ties: radii a few units in the last place either side of exact tangency
+    for (cx, cy, ox, oy, r0, r1, internal) in [(0.0, 0.0, 5.0, 0.0, 3.0, 2.0, false), (1.0, -2.0, 3.0, 4.0, 1.5, 3.5, false), (0.0, 0.0, 3.0, 0.0, 5.0, 2.0, true), (1.0, -2.0, -3.0, -4.0, 2.0, 7.0, true), (0.0, 0.0, 0.0, 0.75, 0.25, 1.0, true), (0.0, 0.0, 0.0009765625, 0.0, 1.0, 0.9990234375, true), (2.0, 2.0, 0.0, -0.0009765625, 0.9990234375, 1.0, true)] {
+        for k in [-4i64, -1, 1, 4] { for which in [0, 1] {
+            let (q0, q1) = if which == 0 { (ulps(r0, k), r1) } else { (r0, ulps(r1, k)) };
+            let a = Circle2::new(cx, cy, q0);
+            let b = Circle2::new(cx + ox, cy + oy, q1);
+            let d = ((ox * ox + oy * oy) as f64).sqrt();
+            // do the circles overlap (by units in the last place) or miss each other?
+            let meet = if internal { d >= (q0 - q1).abs() } else { d <= q0 + q1 };
+            r.case();
+            let got = a.intersections_with(&b);
+            let desc = || format!("circle {:?} x circle {:?} ({} units in the last place from {} tangency, centre distance {:?}) -> {:?}", cs(&a), cs(&b), k, if internal { "internal" } else { "external" }, d, ps(&got));
+            r.check(got.iter().all(fin), "circle-circle intersection: no non-finite coordinate", desc);
+            r.check(if meet { got.len() == 1 || got.len() == 2 } else { got.len() <= 1 }, "circle-circle intersection within units in the last place of tangency: one point (or the two nearly coincident crossing points / none on the far side)", desc);
+            r.check(got.iter().all(|q| on_circle5(q, &a) && on_circle5(q, &b)) && (got.len() < 2 || d2(&got[0], &got[1]) <= 1e-6 * (q0 + q1)), "circle-circle intersection: every returned point lies on both circles", desc);
+        } }
+    }
+    // ---- decimal tangencies (0.1 + 0.2 style: the stored distance is within a few ulps of the stored radii sum / difference)
+    for i in 1..=9 { for j in 1..=9 { for internal in [false, true] { for (ux, uy) in [(1.0, 0.0), (0.0, 1.0), (-1.0, 0.0)] {
+        if internal && i == j { continue; }
+        let (r0, r1) = (i as f64 / 10.0, j as f64 / 10.0);
+        let d = if internal { (i as f64 - j as f64).abs() / 10.0 } else { (i + j) as f64 / 10.0 };
+        let a = Circle2::new(0.0, 0.0, r0);
+        let b = Circle2::new(ux * d, uy * d, r1);
+        r.case();
+        let got = a.intersections_with(&b);
+        let desc = || format!("circle {:?} x circle {:?} (decimal {} tangency) -> {:?}", cs(&a), cs(&b), if internal { "internal" } else { "external" }, ps(&got));
+        r.check(got.iter().all(fin), "circle-circle intersection: no non-finite coordinate", desc);
+        r.check(got.len() <= 2 && got.iter().all(|q| on_circle5(q, &a) && on_circle5(q, &b)) && (got.len() < 2 || d2(&got[0], &got[1]) <= 1e-6), "circle-circle intersection: every returned point lies on both circles", desc);
+    } } } }
+}
+
+/// tangent points: 8 directions in all four quadrants (incl. the negative x axis, where atan2 returns +-pi), circles at
+/// 1e6 from the origin, radius 2^-20 and 2^20, ratios d/r up to 1e9, and the exact closed form as an oracle:
+/// t = c + (r^2/d^2)(q - c) +- (r sqrt(d^2 - r^2)/d^2) perp(q - c)
+fn check_w5_tangent_points(r: &mut Report) {
+    let circles = [(0.0, 0.0, 1.0), (1.0e6, -2.0e6, 3.0), (-3.0, 0.5, 1.0 / 1048576.0), (5.0, 5.0, 1048576.0), (-250.0, -125.0, 40.0)];
+    let dirs = [(1.0, 0.0), (0.0, 1.0), (-1.0, 0.0), (0.0, -1.0), (0.6, 0.8), (-0.8, 0.6), (-0.6, -0.8), (0.8, -0.6)];
+    let ratios = [1.0 + 1e-9, 1.0000001, 1.01, 1.5, 7.0, 30.0, 100.0, 1.0e4, 1.0e6, 1.0e9];
+    for (cx, cy, rad) in circles { let c = Circle2::new(cx, cy, rad); for (ux, uy) in dirs { for ratio in ratios {
+        let q = p(cx + ux * rad * ratio, cy + uy * rad * ratio);
+        let (vx, vy) = (q.x - cx, q.y - cy);
+        let d = (vx * vx + vy * vy).sqrt();
+        // the point must be representably outside (far circles cannot resolve d/r = 1 + 1e-9)
+        if d <= rad * (1.0 + 1e-12) + 1e-9 * (cx.abs() + cy.abs()) { continue; }
+        r.case();
+        let got = c.tangent_points_to(&q);
+        let desc = || format!("circle {:?}.tangent_points_to({:?}) (d/r = {:?}) -> {:?}", cs(&c), (q.x, q.y), d / rad, got.map(|(a, b)| ((a.x, a.y), (b.x, b.y))));
+        match got {
+            None => r.check(false, "tangent points exist for a point outside the circle", desc),
+            Some((t0, t1)) => {
+                r.check(fin(&t0) && fin(&t1), "tangent points: no non-finite coordinate", desc);
+                // sensitivity of the tangent direction near the perimeter: 1/sqrt(d/r - 1)
+                let amp = 1.0 + 1.0 / (d / rad - 1.0).sqrt();
+                let tl = tol5(&c) * amp;
+                r.check((d2(&t0, &c.center) - rad).abs() <= tol5(&c) && (d2(&t1, &c.center) - rad).abs() <= tol5(&c), "tangent points lie on the circle", desc);
+                let perp = |t: &Point2| { let l = d2(&q, t); let dot = (t.x - cx) * (q.x - t.x) + (t.y - cy) * (q.y - t.y); dot.abs() <= tl * (l + rad) };
+                r.check(perp(&t0) && perp(&t1), "tangent line through the external point is perpendicular to the radius", desc);
+                let k = rad * rad / (d * d);
+                let h = rad * ((d - rad) * (d + rad)).sqrt() / (d * d);
+                // left of the line point -> centre is the side of +perp(q - c) = (-vy, vx) ... seen from q looking at c
+                let e_right = p(cx + k * vx - h * vy, cy + k * vy + h * vx);
+                let e_left = p(cx + k * vx + h * vy, cy + k * vy - h * vx);
+                r.check(d2(&t0, &e_left) <= tl && d2(&t1, &e_right) <= tl, "tangent points equal the closed form, first the one to the left of the line from the point to the centre, second the one to the right", || format!("{} expected {:?} {:?}", desc(), (e_left.x, e_left.y), (e_right.x, e_right.y)));
+            }
+        }
+    } } 
+        // projection / distance at extreme ratios
+        for (ux, uy) in dirs { for ratio in [1e-6, 0.03125, 1.0e6] {
+            let q = p(cx + ux * rad * ratio, cy + uy * rad * ratio);
+            let (vx, vy) = (q.x - cx, q.y - cy);
+            let d = (vx * vx + vy * vy).sqrt();
+            if d < 1e-8 || d < 1e-3 * rad * ratio { continue; } // (the far circles cannot resolve r * 1e-6)
+            r.case();
+            let got = c.project_point_to_perimeter(&q);
+            let e = p(cx + vx / d * rad, cy + vy / d * rad);
+            r.check(match got { Some(g) => d2(&g, &e) <= tol5(&c), None => false }, "projection to the perimeter lies on the circle along the centre-to-point direction", || format!("circle {:?}.project_point_to_perimeter({:?}) -> {:?}", cs(&c), (q.x, q.y), got.map(|g| (g.x, g.y))));
+            r.check((c.distance_to(&q) - (d - rad)).abs() <= tol5(&c) + 1e-12 * d, "distance_to is the signed distance to the perimeter", || format!("circle {:?}.distance_to({:?}) -> {:?}", cs(&c), (q.x, q.y), c.distance_to(&q)));
+        } }
+    }
+}
+
+/// outer tangents: nearly equal radii (differences 1e-3 .. 1e-9 use the general construction, 1e-11 the equal-radius
+/// one), all four quadrants, centre distances 1e4 / 1e6, scales 2^-20 / 2^20, a far base centre; tangency checked
+/// relative to the radii (not to the centre distance)
+fn check_w5_outer_tangents(r: &mut Report) {
+    let mut cfgs: Vec<((f64, f64, f64), (f64, f64, f64))> = vec![];
+    for off in [(3.0, 0.0), (0.0, -4.0), (-3.0, -4.0), (5.0, 12.0), (-8.0, 6.0)] {
+        for e in [1e-3, 1e-6, 1e-9, 1e-11, -1e-3, -1e-6, -1e-9, -1e-11] { cfgs.push(((0.0, 0.0, 1.0), (off.0, off.1, 1.0 + e))); cfgs.push(((2.0, -1.0, 2.5), (2.0 + off.0, -1.0 + off.1, 2.5 * (1.0 + e)))); }
+        for (r0, r1) in [(0.5, 2.0), (2.0, 0.5), (3.0, 3.0), (1.0, 2.5)] {
+            cfgs.push(((0.0, 0.0, r0), (off.0, off.1, r1)));
+            for s in [1.0 / 1048576.0, 1048576.0] { cfgs.push(((0.0, 0.0, r0 * s), (off.0 * s, off.1 * s, r1 * s))); }
+            cfgs.push(((1.0e6, -2.0e6, r0), (1.0e6 + off.0, -2.0e6 + off.1, r1)));
+            for far in [1.0e4, 1.0e6] { cfgs.push(((0.0, 0.0, r0), (off.0 * far, off.1 * far, r1))); }
+        }
+    }
+    for ((ax, ay, r0), (bx, by, r1)) in cfgs {
+        let (a, b) = (Circle2::new(ax, ay, r0), Circle2::new(bx, by, r1));
+        let (ox, oy) = (bx - ax, by - ay);
+        let d = (ox * ox + oy * oy).sqrt();
+        let rd = (r0 - r1).abs();
+        r.case();
+        let got = a.outer_tangents_to(&b);
+        let show = |s: &Segment2| ((s.a.x, s.a.y), (s.b.x, s.b.y));
+        let desc = || format!("circle {:?}.outer_tangents_to(circle {:?}) (centre distance {:?}, |r0-r1| {:?}) -> {:?}", cs(&a), cs(&b), d, rd, got.as_ref().map(|(s0, s1)| (show(s0), show(s1))));
+        match got.as_ref() {
+            None => r.check(false, "outer tangents exist for circles of which neither contains the other", desc),
+            Some((s0, s1)) => {
+                r.check(fin(&s0.a) && fin(&s0.b) && fin(&s1.a) && fin(&s1.b), "outer tangents: no non-finite coordinate", desc);
+                // rounding: the tangent direction is known to about 1e-16 d / d, the end points to 1e-16 of the coordinates
+                let t = 1e-9 * (r0 + r1) + 1e-13 * (ax.abs() + ay.abs() + bx.abs() + by.abs() + d);
+                let touches = |s: &Segment2| {
+                    let (tx, ty) = (s.b.x - s.a.x, s.b.y - s.a.y);
+                    let l = (tx * tx + ty * ty).sqrt();
+                    (d2(&s.a, &a.center) - r0).abs() <= t && (d2(&s.b, &b.center) - r1).abs() <= t
+                        && ((s.a.x - ax) * tx + (s.a.y - ay) * ty).abs() <= t * l
+                        && ((s.b.x - bx) * tx + (s.b.y - by) * ty).abs() <= t * l
+                };
+                r.check(touches(s0) && touches(s1), "outer tangent segments start on this circle, end on the other and are perpendicular to both radii", desc);
+                let side = |q: &Point2| (q.x - ax) * oy - (q.y - ay) * ox; // > 0 on the right of the line a -> b
+                r.check(side(&s0.a) * side(&s0.b) > 0.0 && side(&s1.a) * side(&s1.b) > 0.0 && side(&s0.a) * side(&s1.a) < 0.0, "outer tangent segments lie on opposite sides of the centre line and do not cross it", desc);
+                if rd < 1e-10 {
+                    r.check(side(&s0.a) < 0.0 && side(&s1.a) > 0.0, "outer tangents of EQUAL-radius circles in the documented order (first left / negative normal side, second right)", desc);
+                } else {
+                    r.check(side(&s0.a) < 0.0 && side(&s1.a) > 0.0, "outer tangents in the documented order (first left / negative normal side, second right)", desc);
+                }
+            }
+        }
+    }
+}
+
+/// scale-aware form of seg_circle_count (thresholds relative to the radius)
+fn seg_circle_count5(a: &Point2, b: &Point2, c: &Circle2) -> Option<usize> {
+    let (dx, dy) = (b.x - a.x, b.y - a.y);
+    let (fx, fy) = (a.x - c.x(), a.y - c.y());
+    let l2 = dx * dx + dy * dy;
+    let tc = -(fx * dx + fy * dy) / l2;
+    let (qx, qy) = (fx + tc * dx, fy + tc * dy);
+    let dist = (qx * qx + qy * qy).sqrt();
+    let eps = 1e-6 * c.r();
+    for e in [a, b] { if (d2(e, &c.center) - c.r()).abs() < eps { return None; } }
+    if dist == c.r() { return Some(if tc >= 0.0 && tc <= 1.0 { 1 } else { 0 }); }
+    if (dist - c.r()).abs() < eps { return None; }
+    if dist > c.r() { return Some(0); }
+    let th = ((c.r() * c.r() - dist * dist) / l2).sqrt();
+    Some([tc - th, tc + th].iter().filter(|t| **t >= 0.0 && **t <= 1.0).count())
+}
+fn on_segment5(q: &Point2, a: &Point2, b: &Point2, tol: f64) -> bool {
+    let (ex, ey) = (b.x - a.x, b.y - a.y);
+    let l2 = ex * ex + ey * ey;
+    let s = (((q.x - a.x) * ex + (q.y - a.y) * ey) / l2).clamp(0.0, 1.0);
+    d2(q, &p(a.x + s * ex, a.y + s * ey)) <= tol
+}
+
+/// lines: intersection_line_circle on rays with direction norms 2^-10 .. 2^10 against the roots of the quadratic
+/// |o + t v - c|^2 = r^2; segments whose END POINTS lie exactly on the circle (parameter exactly 0 / 1); circles of
+/// radius 2^-20 / 2^20 and 1e6 from the origin; a zigzag curve of 240 edges (also 1e5 from the origin)
+fn check_w5_lines(r: &mut Report) {
+    // ---- segments of length 2^-10 .. 2^10 radii in 5 directions: the returned points against the roots of
+    // |o + t v - c|^2 = r^2 in [0, 1] (intersection_line_circle itself is private to geom2; Segment2 is its public entry)
+    for (cx, cy, rad) in [(0.0, 0.0, 5.0), (3.0, -2.0, 2.5), (1.0e6, -1.0e6, 5.0), (0.25, 0.5, 1.0 / 1048576.0), (-7.0, 1.0, 1048576.0)] {
+        let c = Circle2::new(cx, cy, rad);
+        for (ux, uy) in [(1.0, 0.0), (0.0, 1.0), (0.6, 0.8), (-0.8, 0.6), (0.0, -1.0)] { for norm in [1.0, 2.0, 0.5, 1.0 / 1024.0, 1024.0, 3.0] { for off in [0.0, 0.6, -0.28, 1.0, -1.0, 1.5, -3.0] { for back in [-2.0, 0.0, 0.75, 4.0, 0.3 * norm, 0.9 * norm] {
+            // the line at signed distance off * r from the centre with direction (ux, uy); the segment starts `back`
+            // radii behind the foot of the centre and is norm radii long
+            let (nx, ny) = (-uy, ux);
+            let o = p(cx + nx * off * rad - ux * back * rad, cy + ny * off * rad - uy * back * rad);
+            let e = p(o.x + ux * norm * rad, o.y + uy * norm * rad);
+            // exact tangency only for the axis directions (the foot is then exact); oblique |off| = 1 is left out
+            if off * off == 1.0 && ux * uy != 0.0 { continue; }
+            // closed form: foot parameter back / norm, half chord sqrt(1 - off^2) / norm
+            let tc = back / norm;
+            let roots: Vec<f64> = if off * off == 1.0 { vec![tc] } else if off * off > 1.0 { vec![] } else { let th = (1.0 - off * off).sqrt() / norm; vec![tc - th, tc + th] };
+            if roots.iter().any(|t| t.abs() < 1e-6 || (t - 1.0).abs() < 1e-6) { continue; }
+            let exp_pts: Vec<Point2> = roots.iter().filter(|t| **t > 0.0 && **t < 1.0).map(|t| p(o.x + ux * norm * rad * t, o.y + uy * norm * rad * t)).collect();
+            let sg = match Segment2::try_new(o, e) { Ok(s) => s, Err(_) => continue };
+            r.case();
+            let got = c.intersection(&sg);
+            let desc = || format!("circle {:?} x segment {:?}-{:?} (line at {:?} r from the centre, {:?} r long, starting {:?} r behind the foot) -> {:?} expected {:?}", cs(&c), (o.x, o.y), (e.x, e.y), off, norm, back, ps(&got), ps(&exp_pts));
+            r.check(got.iter().all(fin), "circle-segment intersection: no non-finite coordinate", desc);
+            r.check(got.len() == exp_pts.len(), "circle-segment intersection: count matches the configuration (0 apart, 1 tangent or one end inside, 2 crossing)", desc);
+            let t5 = (tol5(&c) + 1e-13 * rad * (back.abs() + norm)) * if off * off == 1.0 { 1e5 } else { 1.0 };
+            r.check(got.iter().all(|g| exp_pts.iter().any(|x| d2(g, x) <= t5)) && exp_pts.iter().all(|x| got.iter().any(|g| d2(g, x) <= t5)), "circle-segment intersection: the returned points are the points of the segment at the roots of |o + t v - c|^2 = r^2 in [0, 1]", desc);
+        } } } }
+    }
+    // ---- segments with an end point exactly on the circle (integer points of the radius-5 circle)
+    for (cx, cy) in [(0.0, 0.0), (3.0, -2.0), (-1024.0, 4096.0)] { for s in [1.0, 1.0 / 1024.0, 1024.0] {
+        let c = Circle2::new(cx, cy, 5.0 * s);
+        let q = |x: f64, y: f64| p(cx + x * s, cy + y * s);
+        let segs: [((f64, f64), (f64, f64), usize); 12] = [
+            ((5.0, 0.0), (10.0, 0.0), 1), ((10.0, 0.0), (5.0, 0.0), 1), ((3.0, 4.0), (0.0, 0.0), 1), ((0.0, 0.0), (3.0, 4.0), 1),
+            ((3.0, 4.0), (-4.0, 3.0), 2), ((3.0, 4.0), (-3.0, -4.0), 2), ((4.0, 3.0), (4.0, -3.0), 2), ((5.0, 0.0), (5.0, 7.0), 1),
+            ((5.0, -7.0), (5.0, 0.0), 1), ((0.0, -5.0), (0.0, 9.0), 2), ((-4.0, -3.0), (-8.0, -6.0), 1), ((0.0, 5.0), (-5.0, 0.0), 2)];
+        for ((x0, y0), (x1, y1), expected) in segs {
+            let (a, b) = (q(x0, y0), q(x1, y1));
+            let sg = Segment2::try_new(a, b).unwrap();
+            r.case();
+            let got = c.intersection(&sg);
+            let desc = || format!("circle {:?} x segment {:?}-{:?} (an end point exactly on the circle) -> {:?} (expected {} points)", cs(&c), (a.x, a.y), (b.x, b.y), ps(&got), expected);
+            r.check(got.len() == expected, "circle-segment intersection: an end point of the segment that lies exactly on the circle is an intersection (closed segment, parameter 0 / 1)", desc);
+            r.check(got.iter().all(|g| on_circle5(g, &c) && on_segment5(g, &a, &b, 10.0 * tol5(&c))), "circle-segment intersection: every returned point lies on the circle and on the segment", desc);
+        }
+    } }
+    // ---- the round-1 segment families at other magnitudes
+    for (cx, cy, rad) in [(1.0e6, -1.0e6, 5.0), (0.0, 0.0, 5.0 / 1048576.0), (3.0, -2.0, 5.0 * 1048576.0), (-1.0e5, 3.0e5, 2.5)] {
+        let c = Circle2::new(cx, cy, rad);
+        let mut segs: Vec<(Point2, Point2)> = vec![];
+        segs.push((p(cx - 2.0 * rad, cy + rad), p(cx + 2.0 * rad, cy + rad)));
+        segs.push((p(cx - rad, cy - 1.5 * rad), p(cx - rad, cy + 2.0 * rad)));
+        segs.push((p(cx + 0.25 * rad, cy + rad), p(cx + 2.0 * rad, cy + rad)));
+        for off in [0.0, 0.25, 0.5, 0.75, 0.96875, 1.03125, 2.0] {
+            segs.push((p(cx - 3.0 * rad, cy + off * rad), p(cx + 3.0 * rad, cy + off * rad)));
+            segs.push((p(cx - off * rad, cy - 2.0 * rad), p(cx - off * rad, cy + 4.0 * rad)));
+            segs.push((p(cx + off * rad, cy), p(cx + off * rad + 3.0 * rad, cy + 1.5 * rad)));
+            segs.push((p(cx - 2.0 * rad, cy - 2.0 * rad - off * rad), p(cx + 2.0 * rad, cy + 2.0 * rad - off * rad)));
+            segs.push((p(cx + 0.25 * rad, cy + 0.125 * rad), p(cx + 0.25 * rad + off * rad, cy - 0.5 * rad)));
+            // a long segment (1000 r) crossing / missing the circle
+            segs.push((p(cx - 600.0 * rad, cy + off * rad), p(cx + 400.0 * rad, cy + off * rad)));
+        }
+        for (a, b) in segs.iter() { for (a, b) in [(a, b), (b, a)] {
+            let expected = match seg_circle_count5(a, b, &c) { Some(e) => e, None => continue };
+            let sg = match Segment2::try_new(*a, *b) { Ok(s) => s, Err(_) => continue };
+            r.case();
+            let got = c.intersection(&sg);
+            let desc = || format!("circle {:?} x segment {:?}-{:?} -> {:?} (expected {} points)", cs(&c), (a.x, a.y), (b.x, b.y), ps(&got), expected);
+            r.check(got.iter().all(fin), "circle-segment intersection: no non-finite coordinate", desc);
+            r.check(got.len() == expected, "circle-segment intersection: count matches the configuration (0 apart, 1 tangent or one end inside, 2 crossing)", desc);
+            let len = d2(a, b);
+            let t = tol5(&c) * if expected == 1 && got.len() == 1 && (seg_is_tangent(a, b, &c)) { 1e5 } else { 1.0 } + 1e-13 * len;
+            r.check(got.iter().all(|g| fin(g) && (d2(g, &c.center) - rad).abs() <= t && on_segment5(g, a, b, t)), "circle-segment intersection: every returned point lies on the circle and on the segment", desc);
+        } }
+    }
+    // ---- a long zigzag curve (240 edges), also far from the origin
+    for (bx, by) in [(0.0, 0.0), (1.0e5, -2.0e5)] {
+        let pts: Vec<Point2> = (0..=240).map(|i| p(bx + i as f64 * 0.5, by + if i % 2 == 0 { -3.0 } else { 3.0 })).collect();
+        let curve = match Curve2::from_points(&pts, 1e-6, false) { Ok(c) => c, Err(_) => { r.check(false, "coverage: the zigzag curve is built", || String::new()); continue } };
+        for (cx, cy, rad) in [(60.0, 0.0, 58.8), (60.3, 0.7, 10.1), (119.9, 2.9, 1.3), (0.1, -2.9, 0.9), (30.2, 40.0, 41.3), (60.0, -1.0, 200.0), (77.7, 0.0, 2.05)] {
+            let c = Circle2::new(bx + cx, by + cy, rad);
+            let mut expected = 0; let mut skip = false;
+            for i in 0..pts.len() - 1 { match seg_circle_count(&pts[i], &pts[i + 1], &c) { Some(e) => expected += e, None => skip = true } }
+            if skip { continue; }
+            r.case();
+            let got = curve.intersection(&c);
+            let desc = || format!("zigzag curve of 240 edges from ({:?}, {:?}) x circle {:?} -> {} points {:?} (expected {})", bx, by - 3.0, cs(&c), got.len(), ps(&got), expected);
+            r.check(got.len() == expected, "curve-circle intersection: count equals the sum over the edges", desc);
+            r.check(got.iter().all(|g| on_circle5(g, &c) && (0..pts.len() - 1).any(|i| on_segment5(g, &pts[i], &pts[i + 1], 10.0 * tol5(&c)))), "curve-circle intersection: every returned point lies on the circle and on the curve", desc);
+        }
+    }
+}
+fn seg_is_tangent(a: &Point2, b: &Point2, c: &Circle2) -> bool {
+    let (dx, dy) = (b.x - a.x, b.y - a.y);
+    let (fx, fy) = (a.x - c.x(), a.y - c.y());
+    let tc = -(fx * dx + fy * dy) / (dx * dx + dy * dy);
+    let (qx, qy) = (fx + tc * dx, fy + tc * dy);
+    (qx * qx + qy * qy).sqrt() == c.r()
+}
+
+/// bounding box of an arc against the exact extremes, to a given tolerance (scale-aware form of check_arc_box)
+fn check_arc_box5(r: &mut Report, arc: &Arc2, what: &str) {
+    let (cx, cy, rad) = (arc.center().x, arc.center().y, arc.radius());
+    let (a0, sw) = (arc.angle0, arc.angle);
+    let (lo, hi) = if sw >= 0.0 { (a0, a0 + sw) } else { (a0 + sw, a0) };
+    let mut cand: Vec<Point2> = vec![circle_pt(cx, cy, rad, a0), circle_pt(cx, cy, rad, a0 + sw)];
+    let k0 = (lo / (PI / 2.0)).ceil() as i64;
+    let k1 = (hi / (PI / 2.0)).floor() as i64;
+    for k in k0..=k1 { let m = ((k % 4) + 4) % 4; let (ux, uy) = [(1.0, 0.0), (0.0, 1.0), (-1.0, 0.0), (0.0, -1.0)][m as usize]; cand.push(p(cx + rad * ux, cy + rad * uy)); }
+    for i in 0..=90 { cand.push(circle_pt(cx, cy, rad, a0 + sw * i as f64 / 90.0)); }
+    let (mut x0, mut x1, mut y0, mut y1) = (f64::MAX, f64::MIN, f64::MAX, f64::MIN);
+    for q in cand.iter() { x0 = x0.min(q.x); x1 = x1.max(q.x); y0 = y0.min(q.y); y1 = y1.max(q.y); }
+    let bb = arc.aabb();
+    // |a0| up to 100: the angle itself carries 1e-14 of rounding
+    let tol = 1e-9 * rad + 1e-14 * (cx.abs() + cy.abs()) + 1e-13 * rad * (1.0 + a0.abs());
+    let desc = || format!("{}: cached box [{:?}, {:?}] x [{:?}, {:?}], extent of the arc [{:?}, {:?}] x [{:?}, {:?}]", what, bb.mins.x, bb.maxs.x, bb.mins.y, bb.maxs.y, x0, x1, y0, y1);
+    r.check(bb.mins.x.is_finite() && bb.mins.y.is_finite() && bb.maxs.x.is_finite() && bb.maxs.y.is_finite(), "arc bounding box: no non-finite coordinate", desc);
+    r.check(bb.mins.x <= x0 + tol && bb.mins.y <= y0 + tol && bb.maxs.x >= x1 - tol && bb.maxs.y >= y1 - tol, "cached bounding box of an arc contains it", desc);
+    r.check(bb.mins.x >= x0 - tol && bb.mins.y >= y0 - tol && bb.maxs.x <= x1 + tol && bb.maxs.y <= y1 + tol, "cached bounding box of an arc touches it on all four sides", desc);
+}
+
+/// arcs: start angles OUTSIDE [-pi, pi] (up to +-100 rad), radii 2^-20 / 2^20, centres 1e6 from the origin, sweep 0
+/// (box only), every constructor; three-point arcs on scaled and far rings
+fn check_w5_arcs(r: &mut Report) {
+    let geoms = [(3.0, -2.0, 1.0), (0.0, 0.0, 1.0 / 1048576.0), (1.0e6, -2.0e6, 2.5), (-7.0, 9.0, 1048576.0), (1.0e5, 1.0e5, 1.0e4)];
+    let starts = [4.0, 2.0 * PI, -2.0 * PI, 7.5, -9.0, 13.0, 100.0, -50.0, 3.0 * PI / 2.0, -3.0 * PI / 2.0, 5.0 * PI, 0.3, -2.0, PI, -PI];
+    let mut sweeps: Vec<f64> = (-16..=16).map(|k| k as f64 * PI / 8.0).collect();
+    sweeps.extend_from_slice(&[0.3, -1.7, 5.9, -6.2, 1e-6, -1e-6, 4.0, -3.3]);
+    for (cx, cy, rad) in geoms { for &a0 in starts.iter() { for &sw in sweeps.iter() {
+        r.case();
+        let c = Circle2::new(cx, cy, rad);
+        let arcs = [("Arc2::circle_angles", Arc2::circle_angles(p(cx, cy), rad, a0, sw)), ("Circle2::to_partial_arc", c.to_partial_arc(a0, sw))];
+        for (name, arc) in arcs.iter() {
+            let what = format!("{}(({:?}, {:?}), r {:?}, angle0 {:?}, sweep {:?})", name, cx, cy, rad, a0, sw);
+            let t = tol5(&c) + 1e-13 * rad * (1.0 + a0.abs());
+            let len = arc.length();
+            r.check((len - rad * sw.abs()).abs() <= 1e-12 * len, "arc length == radius * |sweep|", || format!("{} length {:?}", what, len));
+            r.check(d2(&arc.start(), &circle_pt(cx, cy, rad, a0)) <= t && d2(&arc.end(), &circle_pt(cx, cy, rad, a0 + sw)) <= t, "arc starts at angle0 and ends at angle0 + sweep", || format!("{} start {:?} end {:?}", what, (arc.start().x, arc.start().y), (arc.end().x, arc.end().y)));
+            check_arc_box5(r, arc, &what);
+            if sw == 0.0 { continue; } // point_at_length divides by the length
+            let mut ok = true; let mut bad = String::new();
+            for f in [0.0, 0.3125, 1.0] {
+                let l = len * f;
+                let e = circle_pt(cx, cy, rad, a0 + sw.signum() * l / rad);
+                let (by_len, by_frac, by_ang) = (arc.point_at_length(l), arc.point_at_fraction(f), arc.point_at_angle(sw * f));
+                if !(d2(&by_len, &e) <= t && d2(&by_frac, &e) <= t && d2(&by_ang, &e) <= t) { ok = false; bad = format!("fraction {:?}: point_at_length {:?}, point_at_fraction {:?}, point_at_angle {:?}, expected {:?}", f, (by_len.x, by_len.y), (by_frac.x, by_frac.y), (by_ang.x, by_ang.y), (e.x, e.y)); }
+            }
+            r.check(ok, "point_at_length, point_at_fraction and point_at_angle agree with travelling along the arc from its start in the sweep direction", || format!("{} {}", what, bad));
+        }
+        // from a start POINT: same arc up to a whole number of turns in angle0
+        let a3 = Arc2::circle_point_angle(p(cx, cy), rad, circle_pt(cx, cy, rad, a0), sw);
+        let t3 = tol5(&c) + 1e-13 * rad * (1.0 + a0.abs()) + 1e-15 * (cx.abs() + cy.abs()) * 10.0;
+        r.check(d2(&a3.start(), &circle_pt(cx, cy, rad, a0)) <= t3 && d2(&a3.end(), &circle_pt(cx, cy, rad, a0 + sw)) <= t3 && a3.angle == sw, "to_partial_arc and circle_point_angle build the same arc as circle_angles", || format!("Arc2::circle_point_angle(({:?}, {:?}), r {:?}, point at angle {:?}, sweep {:?}) -> angle0 {:?}", cx, cy, rad, a0, sw, a3.angle0));
+        if rad > 1e-3 * (cx.abs() + cy.abs()) * 1e-6 { check_arc_box5(r, &a3, &format!("Arc2::circle_point_angle(({:?}, {:?}), r {:?}, point at angle {:?}, sweep {:?})", cx, cy, rad, a0, sw)); }
+    } } }
+    // ---- three-point arcs on scaled / far rings: every 7th ordered triple of the 12 integer points of the radius-5 circle
+    let ring = [(5.0, 0.0), (4.0, 3.0), (3.0, 4.0), (0.0, 5.0), (-3.0, 4.0), (-4.0, 3.0), (-5.0, 0.0), (-4.0, -3.0), (-3.0, -4.0), (0.0, -5.0), (3.0, -4.0), (4.0, -3.0)];
+    for (cx, cy, k) in [(0.0, 0.0, 1.0 / 64.0), (0.0, 0.0, 1024.0), (1.0e4, -3.0e4, 1.0), (-2.0e5, 1.0e5, 256.0), (7.0, 7.0, 1048576.0)] {
+        for i in 0..12 { for j in 0..12 { for l in 0..12 {
+            if i == j || j == l || i == l || (i + 2 * j + 3 * l) % 7 != 0 { continue; }
+            let q = |m: usize| p(cx + k * ring[m].0, cy + k * ring[m].1);
+            let (p0, p1, p2) = (q(i), q(j), q(l));
+            r.case();
+            let arc = Arc2::three_points(p0, p1, p2);
+            let rad = 5.0 * k;
+            let desc = || format!("Arc2::three_points({:?}, {:?}, {:?}) -> centre ({:?}, {:?}) r {:?} angle0 {:?} sweep {:?}", (p0.x, p0.y), (p1.x, p1.y), (p2.x, p2.y), arc.center().x, arc.center().y, arc.radius(), arc.angle0, arc.angle);
+            // conditioning of the circumcentre in absolute coordinates: eps |c|^2 / r
+            let cc = cx.abs() + cy.abs();
+            let t = 1e-9 * rad + 1e-13 * cc * (1.0 + cc / rad);
+            r.check(arc.angle.is_finite() && arc.angle0.is_finite() && fin(&arc.center()) && arc.radius().is_finite(), "three-point arc: no non-finite value", desc);
+            r.check(d2(&arc.center(), &p(cx, cy)) <= t && (arc.radius() - rad).abs() <= t, "three-point arc lies on the circle through the three points", desc);
+            r.check(d2(&arc.start(), &p0) <= t, "three-point arc starts at the first point", desc);
+            r.check(d2(&arc.end(), &p2) <= t, "three-point arc ends at the third point", desc);
+            let turn = (p1.x - p0.x) * (p2.y - p1.y) - (p1.y - p0.y) * (p2.x - p1.x);
+            r.check((arc.angle > 0.0) == (turn > 0.0) && arc.angle.abs() <= 2.0 * PI + 1e-12 && arc.angle != 0.0, "three-point arc sweeps counter-clockwise (positive) exactly when the points turn left, by at most a full turn", desc);
+            let a1 = (p1.y - cy).atan2(p1.x - cx);
+            let mut da = if arc.angle > 0.0 { a1 - arc.angle0 } else { arc.angle0 - a1 };
+            while da < 0.0 { da += 2.0 * PI; }
+            while da >= 2.0 * PI { da -= 2.0 * PI; }
+            let f = da / arc.angle.abs();
+            r.check(f > 0.0 && f < 1.0 && d2(&arc.point_at_fraction(f), &p1) <= 10.0 * t, "three-point arc passes through the second point between its ends", || format!("{} fraction {:?}", desc(), f));
+        } } }
+    }
+    // ---- cached boxes of circles at extreme magnitudes
+    for (cx, cy) in [(1.0e8, -3.0e7), (0.0, 0.0), (-1.0e-9, 1.0e-9)] { for rad in [1.0e-9, 1.0, 1.0e9] {
+        r.case();
+        check_circle_box(r, &Circle2::new(cx, cy, rad), "Circle2::new", &|| format!("Circle2::new({:?}, {:?}, {:?})", cx, cy, rad));
+        check_circle_box(r, &Circle2::from_point(p(cx, cy), rad), "Circle2::from_point", &|| format!("Circle2::from_point(({:?}, {:?}), {:?})", cx, cy, rad));
+        check_circle_box(r, &Circle2::new(cx, cy, rad).to_arc().circle, "Circle2::to_arc (field circle)", &|| format!("Circle2::new({:?}, {:?}, {:?}).to_arc()", cx, cy, rad));
+    } }
+}
+
 pub fn run() -> Option<Report> {
     let mut r = Report::new("circle pairs: 3 centres x 12 offsets (centre distances 0, 0.5, 1, 2, 3, 4, 5, 8, 10, 13, sqrt 2, ...) x 8 x 8 radii (separate, nested, internally / externally tangent, equal radii, concentric; within 1e-6 of tangency excluded unless exact); tangent points: 4 circles x 6 directions x d/r in {1+1e-9, 1+1e-6, 1.001, 1.1, sqrt 2, 2, 3, 10, 1e3} and points on / inside the perimeter; outer tangents: 2 centres x 10 offsets x 6 x 6 radii; segments: 4 circles x 40 segments (exactly tangent, chords, partial, inside, outside) in both senses, 3 polylines x 25 circles; three-point arcs: all ordered triples of the 12 integer points of the radius-5 circle x 3 centres; arcs: 3 centres x 3 radii x 18 start angles x 40 signed sweeps in [-2pi, 2pi] (box checked against both ends, the axis extremes inside the sweep and 720 samples); cached boxes of circles from every producer: new / from_point / clone (5 centres x 6 radii), from_3_points (every fifth ordered triple of the 12 integer points of the radius-5 circle x 5 centres x 3 scales), fitting_circle -> fit_circle (4 circles x 4 / 7 / 12 / 36 exact samples over a full turn or 3.5 rad x 5 initial guesses different from the answer x BestFit::All / Gaussian(3)), ransac (2 circles, 24 points + 3 outliers, 3 parameter sets), the circle field of arcs from circle_angles / circle_point_angle / three_points / to_arc / to_partial_arc; ROUND 4: the arc box clause for the circle_angles, circle_point_angle AND to_partial_arc form of every arc of the grid, and LONG sweeps through every constructor: 3 centres x 3 radii x 16 start angles x sweeps +-{270, 275, 285, 300, 315, 330, 345, 359} degrees (most of them leave out one axis extreme) built by circle_angles / to_partial_arc / circle_point_angle / three_points, and InscribedCircle::contact_arc for contact points 20 .. 90 degrees apart at 7 positions with the direction into / away from the gap");
     check_circle_pairs(&mut r);
@@ -492,5 +907,10 @@ pub fn run() -> Option<Report> {
     check_arcs(&mut r);
     check_long_arcs(&mut r);
     check_circle_boxes(&mut r);
+    check_w5_circle_pairs(&mut r);
+    check_w5_tangent_points(&mut r);
+    check_w5_outer_tangents(&mut r);
+    check_w5_lines(&mut r);
+    check_w5_arcs(&mut r);
     Some(r)
 }
